@@ -494,12 +494,14 @@ fn op(
                 );
             }
             (Temporary::Register(source_register_1), Temporary::Spill(source_position_2)) => {
+                // the first source may be the scratch register itself (e.g. in jump-table dispatch)
+                let scratch = if source_register_1 == TEMP { TEMP2 } else { TEMP };
                 instructions.push(Code::LDR(
-                    TEMP,
+                    scratch,
                     Register::SP,
                     stack_offset(source_position_2),
                 ));
-                op(target_register, source_register_1, TEMP, instructions);
+                op(target_register, source_register_1, scratch, instructions);
             }
             (Temporary::Spill(source_position_1), Temporary::Register(source_register_2)) => {
                 instructions.push(Code::LDR(
@@ -532,12 +534,14 @@ fn op(
                     op(TEMP, source_register_1, source_register_2, instructions);
                 }
                 (Temporary::Register(source_register_1), Temporary::Spill(source_position_2)) => {
+                    // the first source may be the scratch register itself
+                    let scratch = if source_register_1 == TEMP { TEMP2 } else { TEMP };
                     instructions.push(Code::LDR(
-                        TEMP,
+                        scratch,
                         Register::SP,
                         stack_offset(source_position_2),
                     ));
-                    op(TEMP, source_register_1, TEMP, instructions);
+                    op(TEMP, source_register_1, scratch, instructions);
                 }
                 (Temporary::Spill(source_position_1), Temporary::Register(source_register_2)) => {
                     instructions.push(Code::LDR(
